@@ -1937,6 +1937,9 @@ class Group(Element):
     def _get_children(self, trailing=False):
         if Validator.is_strict(self.validation_level):
             children = self.children.get_ordered_children()
+            # the Z segments are not part of the structure: they are encoded after the known children
+            ordered_names = self.ordered_children if self.ordered_children is not None else []
+            children.extend([c for c in self.children.get_children() if c[0].name not in ordered_names])
         else:
             children = self.children.get_children()
         if not trailing:
